@@ -67,6 +67,9 @@ type Enc struct {
 	closureBinds map[string][]Val
 	allocHook func(fr *Frame, st *State, reach string, x ssa.Instruction, ln string, et types.Type)
 	opt *EncOpts
+	topTags map[string]bool
+	assumed map[string]int
+	retReach []string
 	curReach string // reachability of the instruction being encoded
 	pendLo, pendHi string // element range of the store being recorded
 	goalMode bool // formulas currently evaluated become proof goals (quantifier index normalisation is for hypotheses only)
@@ -130,6 +133,14 @@ func (e *Enc) assume(term string) {
 	if term == "true" {
 		return
 	}
+	if e.assumed == nil {
+		e.assumed = map[string]int{}
+	}
+	// identical facts are asserted once per script position range (scratch passes truncate the body, so remember the position)
+	if at, ok := e.assumed[term]; ok && at < len(e.body) && e.body[at] == "(assert "+term+")" {
+		return
+	}
+	e.assumed[term] = len(e.body)
 	e.assumes++
 	e.body = append(e.body, "(assert "+term+")")
 }
